@@ -209,12 +209,29 @@ func (c *Cluster) respond(e *Entry, mode string) {
 		} else {
 			gerr = c.commitCheck(e, req.GroupID, req.MemberID, req.GenerationID)
 		}
+		// "err@p<idx>:<code>": only the idx-th partition entry of the request (entries counted across its topics in
+		// request order) is answered with the code and not recorded; the other entries are handled normally
+		rej := -1
+		if isErr && len(field) > 1 && field[0] == 'p' {
+			if n, perr := strconv.Atoi(field[1:]); perr == nil {
+				rej = n
+				gerr = c.commitCheck(e, req.GroupID, req.MemberID, req.GenerationID)
+			}
+		}
+		idx := -1
 		for _, t := range req.Topics {
 			rt := offsetcommit.ResponseTopic{Name: t.Name}
 			for _, p := range t.Partitions {
+				idx++
 				rp := offsetcommit.ResponsePartition{PartitionIndex: p.PartitionIndex, ErrorCode: gerr}
 				if gerr == 0 {
-					if c.Part(t.Name, int(p.PartitionIndex)) == nil {
+					if idx == rej {
+						rp.ErrorCode = code
+						if e.PartErr == nil {
+							e.PartErr = map[TP]int16{}
+						}
+						e.PartErr[TP{t.Name, int(p.PartitionIndex)}] = code
+					} else if c.Part(t.Name, int(p.PartitionIndex)) == nil {
 						rp.ErrorCode = ErrUnknownTopicOrPartition
 					} else {
 						c.commit(e, req.GroupID, req.MemberID, int(req.GenerationID), t.Name, int(p.PartitionIndex), p.CommittedOffset)
